@@ -302,7 +302,16 @@ class ConvexPolygon(GeoBody):
 
     def __eq__(self, other):
         if isinstance(other, ConvexPolygon):
-            return hash(self) == hash(other)
+            # Equal hashes do not imply equal polygons (CPython has
+            # hash(-1) == hash(-2), so the hashes of lattice points collide):
+            # compare the vertex sets and the carrier planes themselves.
+            for point in self.points:
+                if point not in other.points:
+                    return False
+            for point in other.points:
+                if point not in self.points:
+                    return False
+            return self.plane == other.plane
         else:
             return False
 
